@@ -801,7 +801,11 @@ func (h *Host) StartReplica(spec *ShardSpec, members map[uint64]dragonboat.Targe
 		}, cfg)
 	default:
 		return h.NH.StartOnDiskReplica(members, join, func(shard, replica uint64) sm.IOnDiskStateMachine {
-			return &OnDiskKV{c: newCore(spec.Rec, KindOnDisk, shard, replica, spec.Disk(shard, replica))}
+			d := spec.Disk(shard, replica)
+			d.mu.Lock()
+			d.Off = func() bool { return atomic.LoadInt32(&h.Mon.frozen) == 1 }
+			d.mu.Unlock()
+			return &OnDiskKV{c: newCore(spec.Rec, KindOnDisk, shard, replica, d)}
 		}, cfg)
 	}
 }
